@@ -50,7 +50,7 @@ ANCHORS = ['pfhedge.instruments.derivative.base:BaseDerivative.simulate',
            'pfhedge.instruments.primary.local_volatility:LocalVolatilityStock.simulate']
 PYTEST_WORKLOAD = True  # thorough tier also runs /repo/tests with these passive monitors attached (DESIGN.md 2.7)
 DECIDING = ["grid.n_points", "grid.derivative_simulate", "ttm.values"]
-REQUIRED_BRANCHES = ["derivative.two_underliers", "resimulated_other_maturity", "ratio.integer", "ratio.non_integer", "ttm.negative_index"]
+REQUIRED_BRANCHES = ["maturity_zero", "derivative.two_underliers", "resimulated_other_maturity", "ratio.integer", "ratio.non_integer", "ttm.negative_index"]
 
 _CTX = None
 PRIMS = ["brownian", "heston", "cir", "vasicek", "merton", "kou", "rbergomi", "localvol"]
@@ -194,6 +194,11 @@ def drv_sweep(ctx, k, rng):
         kinds = [pick(rng, ["brownian", "merton", "kou", "vasicek"]), pick(rng, PRIMS)]
     else:
         kinds = PRIMS
+    if k % 12 == 7:
+        # a contract observed at its maturity date (maturity 0): the grid is the single point t = 0
+        kk, M, way = 0, 0.0, "zero"
+        kinds = [x for x in PRIMS if x != "rbergomi"]  # (the rough-Bergomi generator has no single-point path: C11 finding)
+        ctx.branch("maturity_zero")
     if kk > 120:
         kinds = [x for x in kinds if x not in ("heston", "cir", "localvol")] or ["brownian"]
     for kind in kinds:
